@@ -6,6 +6,7 @@ pub mod c01;
 pub mod c02;
 pub mod c07;
 pub mod c08;
+pub mod c09;
 pub mod c13;
 pub mod c14;
 pub mod c15;
@@ -14,12 +15,44 @@ pub mod c19;
 pub mod c20;
 pub mod srvref;
 
-pub const REGISTRY: &[(&str, fn(&Reporter), &str)] = &[("C01", c01::check, "exploration"), ("C02", c02::check, "exploration"), ("C07", c07::check, "exploration"), ("C08", c08::check, "exploration"), ("C13", c13::check, "model_checking"), ("C14", c14::check, "exploration"), ("C15", c15::check, "exploration"), ("C16", c16::check, "exploration"), ("C19", c19::check, "exploration"), ("C20", c20::check, "exploration")];
+pub const REGISTRY: &[(&str, fn(&Reporter), &str)] = &[("C01", c01::check, "exploration"), ("C02", c02::check, "exploration"), ("C07", c07::check, "exploration"), ("C08", c08::check, "exploration"), ("C09", c09::check, "model_checking"), ("C13", c13::check, "model_checking"), ("C14", c14::check, "exploration"), ("C15", c15::check, "exploration"), ("C16", c16::check, "exploration"), ("C19", c19::check, "exploration"), ("C20", c20::check, "exploration")];
 
 /// Re-execute a replay artefact; prints REPRODUCED / NOT-REPRODUCED.
 pub fn replay(v: &serde_json::Value) -> i32 {
 	let prop = v.get("property").and_then(|p| p.as_str()).unwrap_or("");
+	let r = &v["replay"];
+	if r.get("engine").and_then(|e| e.as_str()) == Some("SCHED") {
+		let name = r["scenario"].as_str().unwrap_or("");
+		let choices: Vec<usize> = r["choices"].as_array().map(|a| a.iter().filter_map(|x| x.as_u64().map(|n| n as usize)).collect()).unwrap_or_default();
+		let scen: Vec<Box<dyn crate::sched::DynScenario>> = match prop {
+			"C09" => c09::dyn_scenarios(),
+			_ => vec![],
+		};
+		let Some(s) = scen.iter().find(|s| s.dyn_name() == name) else {
+			println!("scenario {name:?} not found for {prop}");
+			return 2;
+		};
+		let (trace, labels, viol, outcome, ns) = s.dyn_replay(&choices);
+		println!("scenario: {name}\nchoices: {choices:?}\nenabled-counts: {ns:?}");
+		for l in &labels {
+			println!("  decision: {l}");
+		}
+		for t in &trace {
+			println!("  {t}");
+		}
+		println!("outcome: {outcome}");
+		let want = v["signature"].as_str().unwrap_or("");
+		for (sig, what) in &viol {
+			println!("violation: {sig}: {what}");
+		}
+		if viol.iter().any(|(s, _)| s == want) {
+			println!("REPRODUCED");
+			return 1;
+		}
+		println!("NOT-REPRODUCED");
+		return 0;
+	}
 	println!("replay of property {prop}: {}", serde_json::to_string_pretty(v).unwrap_or_default());
-	println!("(re-run `verif check {prop}` to re-evaluate this case; the case is part of the enumerated space)");
+	println!("(ENUM/HIST case: re-run `verif check {prop}` to re-evaluate it; the case is part of the enumerated space)");
 	0
 }
